@@ -68,6 +68,16 @@ class SplineMethod(SamplingMethod):
             B = evalf(B)
         except:
             raise Exception("Only linear systems supported in SplineMethod")
+        # The right-hand side must be exactly A x + B u: a constant or parametric term cannot be represented
+        args0 = dict(args)
+        args0["x"] = DM.zeros(stage.nx)
+        args0["u"] = DM.zeros(stage.nu)
+        try:
+            offset = evalf(ode(**args0)["ode"])
+        except:
+            raise Exception("Only linear systems supported in SplineMethod")
+        if np.any(np.array(offset)!=0):
+            raise Exception("Only linear systems without constant terms supported in SplineMethod")
         # Obtain chains of differentiations (scalarised)
 
         # Use combined index: v=[x;u]
@@ -105,7 +115,11 @@ class SplineMethod(SamplingMethod):
             while True:
                 chain.append(e)
                 edge = list(edges(e,data=True))
-                if len(edge)==0: break
+                if len(edge)==0:
+                    # A chain ends in a control; a state without any dependency (zero derivative) would be left free
+                    if e<stage.nx:
+                        raise Exception("SplineMethod cannot handle a state with zero derivative")
+                    break
                 edge = edge[0]
                 e = edge[1]
                 chain.append(edge[2]["weight"])
